@@ -1,7 +1,12 @@
 (* Correspondence checker for C16: one case = one configuration + one scripted client session
    against the real handler; [check] recomputes everything with model/Socks5.v.
 
-   CSess cmds creds envt resolved dialr listenr script  prov_ok out dialled target_bytes listened
+   CPin client cmd announced returned
+     the handler's associateSourceRewriter.Rewrite called directly: client = RemoteAddr of the request
+     (Tcp ip zone / Other "host:port"), cmd the command code, announced the IP of RawDestAddr,
+     returned the IP of the address it hands to the library's relay
+   CSess client cmds creds envt resolved dialr listenr script  prov_ok out dialled target_bytes listened
+     client             RemoteAddr the client connection reports
      cmds, creds        Commands / Credentials of the handler (hex strings; creds in insertion order)
      envt               environment variables the harness set, as replacer keys (env.NAME) -> value
      resolved           what DNSResolver answered for the name in the script: hex IP, "" = error
@@ -22,16 +27,21 @@ Import ListNotations.
 Open Scope Z_scope.
 
 Inductive c16case :=
-| CSess (cmds : list string) (creds : list (string * string)) (envt : list (string * string))
+| CPin (client : caddr) (cmd : Z) (announced : string) (returned : string)
+| CSess (client : caddr) (cmds : list string) (creds : list (string * string)) (envt : list (string * string))
         (resolved : string) (dialr listenr : Z) (script : string)
         (prov_ok : bool) (out : string) (dialled : bool) (target_bytes : string) (listened : bool)
         (probes : list (string * Z * bool)).
+
+Definition Tcp (ip zone : string) : caddr := CTcp (unhex ip) (unhex zone).
+Definition Other (s : string) : caddr := COther (unhex s).
 
 Definition hexpair (p : string * string) : bytes * bytes := (unhex (fst p), unhex (snd p)).
 
 Definition check (c : c16case) : bool :=
   match c with
-  | CSess cmds creds envt resolved dialr listenr script prov_ok out dialled tbytes listened probes =>
+  | CPin client cmd announced returned => bytes_eqb (rewrite client cmd (unhex announced)) (unhex returned)
+  | CSess client cmds creds envt resolved dialr listenr script prov_ok out dialled tbytes listened probes =>
       let table := map hexpair envt in
       let cfg := {| commands := map unhex cmds; credentials := map hexpair creds |} in
       match provision (replace_all (fun k => assoc k table)) ascii_upper cfg with
@@ -40,7 +50,7 @@ Definition check (c : c16case) : bool :=
           let e := {| resolve := fun _ => match unhex resolved with [] => None | ip => Some ip end;
                       dial := fun _ _ => if dialr =? 0 then DialOK false else if dialr =? 1 then DialOK true else DialRefused;
                       listen_udp := if listenr =? 0 then Some false else if listenr =? 1 then Some true else None;
-                      client_ip := Some (unhex "7f000001") (* RemoteAddr of the harness's client connection *) |} in
+                      client_ip := client_ip_of client |} in
           let '(evs, fin) := serve srv e (unhex script) in
           prov_ok
           && bytes_eqb (written evs) (unhex out)
